@@ -14,7 +14,7 @@ PROPERTY = "C02"
 LEVEL = "fault_enumeration"
 RULE = ("history:<class>: for every fit-able registry class Hypothesis draws a configuration, a good data set and a history of calls - "
         "fit(good), fit(bad_i) and output calls in any order - where bad_i ranges over the failures the harness can provoke through inputs: "
-        "NaN in X, len(y) != len(X), a single row (fewer samples than clusters / classes), a short sample_weight, 1-D X, empty X. Before "
+        "NaN in X, len(y) != len(X), a single row (fewer samples than clusters / classes), a short sample_weight, 1-D X, empty X - and over unusual but plausible inputs that a class may accept or refuse (y as a column, Fortran-ordered / float32 / read-only X, integer weights). Before "
         "every call the structural image of get_params(deep=True) and the bytes of X, y, sample_weight are recorded; after the call, "
         "whether it returned or raised, both must be unchanged; fit must return the estimator; after the history a final fit(good) must "
         "give the same fingerprint as clone(fresh).fit(good) under the same seed. faults:<meta>: for every meta-estimator the inner "
@@ -68,6 +68,18 @@ def _bad(kind, X, y, w, data_kind):
         Xb = Xb.ravel()
     elif kind == "empty":
         Xb, yb, wb = Xb[:0], None if yb is None else yb[:0], None if wb is None else wb[:0]
+    elif kind == "y-column":
+        if yb is None:
+            return None
+        yb = yb.reshape(-1, 1)
+    elif kind == "X-fortran":
+        Xb = np.asfortranarray(Xb)
+    elif kind == "X-float32":
+        Xb = Xb.astype(np.float32)
+    elif kind == "w-int":
+        wb = np.arange(1, len(Xb) + 1, dtype=np.int64)
+    elif kind == "X-readonly":
+        Xb.setflags(write=False)
     elif kind == "inf-y":
         if yb is None or yb.dtype.kind != "f":
             return None
@@ -77,7 +89,7 @@ def _bad(kind, X, y, w, data_kind):
     return Xb, yb, wb
 
 
-BAD_KINDS = ["nan", "ylen", "few", "wlen", "X1d", "empty", "inf-y", "wrongtype", "none-y"]
+BAD_KINDS = ["nan", "ylen", "few", "wlen", "X1d", "empty", "inf-y", "wrongtype", "none-y", "y-column", "X-fortran", "X-float32", "w-int", "X-readonly"]
 
 
 def _call_fit(entry, est, X, y, w, facts):
